@@ -253,7 +253,8 @@ def src(n, ind=1):
     if k == "strlit":
         return '"' + (n.spelling if getattr(n, "spelling", None) is not None else n.text) + '"'
     if k == "fstr":
-        return 'f"' + "".join(p if isinstance(p, str) else "{" + src(p, ind) + "}" for p in n.parts) + '"'
+        # literal text: `{` and `}` are written `{{` and `}}` (language reference, f-strings)
+        return 'f"' + "".join(p.replace("{", "{{").replace("}", "}}") if isinstance(p, str) else "{" + src(p, ind) + "}" for p in n.parts) + '"'
     if k == "listlit":
         return "[" + ", ".join(src(e, ind) for e in n.elems) + "]"
     if k == "for":
